@@ -9,6 +9,13 @@ the queue is drained FIFO):
   cancel  CancelStage(i) vs CompleteTask(i.t) (1 or 2 tasks): one sets the stage + open tasks CANCELED, the other records the task result
   cancelrun  CancelStage(i) vs RunTask(i.t) whose task answers SUCCEEDED / RUNNING-with-context / TERMINAL: the cancel commits between the
           RunTask handler's reload of the stage (`_process_result_safely`) and its result commit (`execute_atomic`)
+  cancelstart  StartStage(i) vs CancelStage(i) on a NOT_STARTED stage (1 or 2 tasks; CancelStage pushed directly, as CompleteWorkflow's failure
+          fan-out / a cancel region do, so the workflow-level cancel flag is NOT set and StartStage's own guard does not pre-empt the race;
+          variant `workflow`: a CancelWorkflow handled in the prefix set the flag and fanned the CancelStage out): the cancel COMPLETES the
+          stage between StartStage's claim commit and its plan commit (the "taken over after claiming" test of the plan-commit retry)
+  twosignals  two persistent SignalStage(g) on a NOT_STARTED stage WITHOUT task rows (stage type `gen`: tasks are built at planning time) — the
+          stage-row version check is the only guard (no per-task version check can reject the stale writer); B is injected, among all legal
+          points, between the `SELECT` at the head of A's `txn.store_stage` and its UPDATE (the first DML opens the transaction)
   startjoin  StartStage(j) vs CompleteStage(u_next) on a join stage j with 3 upstreams whose tracking list ALREADY names the upstreams
           completed in the prefix (DISCRIMINATOR / N_OF_M 1: u1; N_OF_M 2: u1, u2): the sibling's `_update_join_tracking` UPDATES the
           existing `_completed_branches` key between StartStage's claim commit and its plan commit (merge-on-retry of the plan commit)
@@ -42,7 +49,8 @@ from typing import Any
 SUITE = "engine-pairs-cas"
 SIG = {"join": "engine-pair:lost-update:join-tracking", "signal": "engine-pair:lost-update:signal-vs-result",
        "cancel": "engine-pair:reverted:cancel-vs-complete", "cancelrun": "engine-pair:reverted:cancel-vs-result",
-       "startjoin": "engine-pair:lost-update:start-vs-join-tracking", "startsignal": "engine-pair:lost-update:start-vs-signal"}
+       "startjoin": "engine-pair:lost-update:start-vs-join-tracking", "startsignal": "engine-pair:lost-update:start-vs-signal",
+       "cancelstart": "engine-pair:reverted:cancel-vs-start", "twosignals": "engine-pair:lost-update:signal-vs-signal"}
 SIG_VERSION = "engine-pair:version-not-bumped-by-one"
 SIG_SEQ = "engine-pair:outcome-differs-from-both-sequential-orders"
 SIG_STUCK = "engine-pair:no-quiescence"
@@ -53,6 +61,10 @@ RULE = ("engine pairs (Mode B, exhaustive per scenario): join = fan-in u1..un ->
         "N_OF_M (threshold 1, 2), n in {2, 3}; signal = g -> d with RunTask(g) pending and one persistent SignalStage(g) pushed, the task answering "
         "RUNNING-with-context or SUCCEEDED-with-context; cancel = i -> d with CompleteTask(i.t1) pending (1 or 2 tasks) and a CancelStage(i) pushed; "
         "cancelrun = i -> d with RunTask(i.t) pending (task answering SUCCEEDED / RUNNING-with-context / TERMINAL) and a CancelStage(i) pushed; "
+        "cancelstart = i -> d with StartStage(i) pending (i NOT_STARTED, 1 or 2 tasks) and a CancelStage(i) pushed directly (workflow cancel flag not set) or "
+        "fanned out by a CancelWorkflow handled in the prefix (flag set); raced StartStage(i) x CancelStage(i); "
+        "twosignals = g -> d with g NOT_STARTED and WITHOUT task rows (tasks built at planning time), StartStage(g) held back and two persistent "
+        "SignalStage(g) pending, raced against each other; startsignal also in a variant whose stage g has no task rows (nt=0); "
         "startjoin (states WITH HISTORY) = fan-in u1..u3 -> j -> d, join DISCRIMINATOR / N_OF_M (threshold 1, 2), the first max(1, threshold) CompleteStage(u*) "
         "delivered in the prefix so that j's `_completed_branches` already exists and StartStage(j) is pending and ready, raced StartStage(j) x "
         "CompleteStage(next upstream) (thorough: the remaining CompleteStage nested as C); startsignal = g -> d with StartStage(g) pending, one persistent "
@@ -72,7 +84,9 @@ TRUSTED_BASE = ["engine pairs: the mapping store-level call log -> CasRow op lis
                 "merge-on-retry (re-read after a lost plan CAS, merge of the foreign context, retry on the fresh version) is represented by the model's "
                 "`read` + `mod` + `write` (the object is REPLACED by the fresh row and the worker's own modification re-applied), which is what a correct "
                 "merge must be equivalent to on the keys another worker writes; the observed payload carries one entry per successful write of a worker "
-                "whose contribution (branch in `_completed_branches`, second signal in `_buffered_signals`) is in the final context"]
+                "whose contribution (branch in `_completed_branches`, second signal in `_buffered_signals`) is in the final context",
+                "engine pairs on task-less stages (stage type `gen` of harness/modeb.py: `build_tasks` creates the task at planning time): only the task rows "
+                "that existed at the base state are part of the compared abstraction (the rows a StartStage inserts at planning are not)"]
 
 
 # --------------------------------------------------------------------------------------
@@ -81,12 +95,13 @@ TRUSTED_BASE = ["engine pairs: the mapping store-level call log -> CasRow op lis
 
 @dataclass(frozen=True)
 class Scn:
-    kind: str                    # join | signal | cancel | cancelrun | startjoin | startsignal
+    kind: str                    # join | signal | cancel | cancelrun | cancelstart | twosignals | startjoin | startsignal
     n_up: int = 2                # join: upstream branches
     join: str = "DISCRIMINATOR"  # join: join type
     th: int = 0                  # join: threshold (N_OF_M)
     res: str = "running"         # signal / cancelrun: task answer on its first execution: running | success (both with context) | terminal
-    nt: int = 1                  # cancel: tasks of the stage
+                                 # cancelstart: where the CancelStage comes from: direct | workflow
+    nt: int = 1                  # cancel / cancelstart: tasks of the stage; startsignal: 1 = predefined task, 0 = no task rows until planned
 
     def key(self) -> str:
         if self.kind == "join":
@@ -95,14 +110,18 @@ class Scn:
             return f"signal-{self.res}"
         if self.kind == "cancelrun":
             return f"cancelrun-{self.res}"
+        if self.kind == "cancelstart":
+            return f"cancelstart-t{self.nt}-{self.res}"
         if self.kind == "startjoin":
             return f"start-{self.join}{self.th}"
         if self.kind == "startsignal":
-            return "start-signal"
+            return "start-signal" + ("" if self.nt else "-taskless")
+        if self.kind == "twosignals":
+            return "two-signals-taskless"
         return f"cancel-t{self.nt}"
 
     def contended(self) -> str:
-        return {"join": "j", "signal": "g", "cancel": "i", "cancelrun": "i", "startjoin": "j", "startsignal": "g"}[self.kind]
+        return {"join": "j", "signal": "g", "cancel": "i", "cancelrun": "i", "cancelstart": "i", "startjoin": "j", "startsignal": "g", "twosignals": "g"}[self.kind]
 
     def prefix_ups(self) -> int:
         """startjoin: upstream completions delivered before the race (the join is ready and its tracking key exists)"""
@@ -122,9 +141,10 @@ def scenarios(thorough: bool, prop: str = "C07") -> list[Scn]:
             s.append(Scn("join", n_up=n, join=join, th=th))
     s += [Scn("signal", res="running"), Scn("signal", res="success"), Scn("cancel", nt=1), Scn("cancel", nt=2)]
     s += [Scn("cancelrun", res="success"), Scn("cancelrun", res="running"), Scn("cancelrun", res="terminal")]
+    s += [Scn("cancelstart", nt=1, res="direct"), Scn("cancelstart", nt=2, res="direct"), Scn("cancelstart", nt=1, res="workflow")]
     if prop != "C06":
         s += [Scn("startjoin", n_up=3, join="DISCRIMINATOR", th=0), Scn("startjoin", n_up=3, join="N_OF_M", th=1),
-              Scn("startjoin", n_up=3, join="N_OF_M", th=2), Scn("startsignal")]
+              Scn("startjoin", n_up=3, join="N_OF_M", th=2), Scn("startsignal"), Scn("startsignal", nt=0), Scn("twosignals", nt=0)]
     return s
 
 
@@ -142,6 +162,8 @@ def directions(scn: Scn, thorough: bool) -> list[dict]:
         return [{"a": "SG(g)", "b": "RT(g)"}, {"a": "RT(g)", "b": "SG(g)"}]
     if scn.kind == "cancelrun":
         return [{"a": "RT(i)", "b": "XS(i)"}, {"a": "XS(i)", "b": "RT(i)"}]
+    if scn.kind == "cancelstart":
+        return [{"a": "SS(i)", "b": "XS(i)"}, {"a": "XS(i)", "b": "SS(i)"}]
     if scn.kind == "startjoin":
         nxt = f"CS(u{scn.prefix_ups() + 1})"
         out = [{"a": "SS(j)", "b": nxt}, {"a": nxt, "b": "SS(j)"}]
@@ -150,6 +172,8 @@ def directions(scn: Scn, thorough: bool) -> list[dict]:
         return out
     if scn.kind == "startsignal":
         return [{"a": "SS(g)", "b": "SG(g)"}, {"a": "SG(g)", "b": "SS(g)"}]
+    if scn.kind == "twosignals":
+        return [{"a": "SG(g)@0", "b": "SG(g)@1"}, {"a": "SG(g)@1", "b": "SG(g)@0"}]       # @k = the k-th pending row with that code
     return [{"a": "XS(i)", "b": "CT(i)SUCC"}, {"a": "CT(i)SUCC", "b": "XS(i)"}]
 
 
@@ -235,7 +259,7 @@ class Lab:
     def base(self, scn: Scn):
         from stabilize.models.stage import StageExecution
         from stabilize.models.task import TaskExecution
-        from stabilize.queue.messages import CancelStage, SignalStage
+        from stabilize.queue.messages import CancelStage, CancelWorkflow, SignalStage
 
         mb = self.mb
         if self.env is not None:
@@ -271,6 +295,24 @@ class Lab:
             env.drain(max_steps=20, hold=lambda c: c.startswith("RT(i)"))
             env.push(CancelStage(execution_type=env.wf_type, execution_id=env.wf_id, stage_id=env.ids["i"]))
             want = ["RT(i)", "XS(i)"]
+        elif scn.kind == "cancelstart":
+            tasks = [TaskExecution.create(name=f"t{k + 1}", implementing_class="ledger", stage_start=(k == 0), stage_end=(k == scn.nt - 1))
+                     for k in range(scn.nt)]
+            i = StageExecution(ref_id="i", type="noop", name="i", context={}, tasks=tasks, requisite_stage_ref_ids=set())
+            env.create_workflow([i, mb.stage("d", {"i"})])
+            env.start()
+            env.drain(max_steps=20, hold=lambda c: c.startswith("SS(i)"))
+            if scn.res == "workflow":
+                env.push(CancelWorkflow(execution_type=env.wf_type, execution_id=env.wf_id, user="verif", reason="pair"))
+                env.deliver(env.find("XW")[0])
+                want = None
+                if not env.find("SS(i)") or not env.find("XS(i)"):
+                    raise RuntimeError(f"base state of {scn.key()} not reached: {env.state_line()}")
+            else:
+                env.push(CancelStage(execution_type=env.wf_type, execution_id=env.wf_id, stage_id=env.ids["i"]))
+                want = ["SS(i)", "XS(i)"]
+            if env.stage_row("i")["status"] != "NOT_STARTED":
+                raise RuntimeError(f"base state of {scn.key()}: stage i is not NOT_STARTED: {env.state_line()}")
         elif scn.kind == "startjoin":
             mb.build_fanin(env, scn.n_up, scn.join, scn.th)
             env.start()
@@ -281,8 +323,18 @@ class Lab:
             done = env.ctx_of("j").get("_completed_branches") or []
             if done != [f"u{k + 1}" for k in range(scn.prefix_ups())] or env.stage_row("j")["status"] != "NOT_STARTED":
                 raise RuntimeError(f"base state of {scn.key()} has no history: {env.state_line()}")
+        elif scn.kind == "twosignals":
+            env.create_workflow([mb.stage("g", tasks=False), mb.stage("d", {"g"})])
+            env.start()
+            env.drain(max_steps=20, hold=lambda c: c.startswith("SS(g)"))
+            for n in (1, 2):
+                env.push(SignalStage(execution_type=env.wf_type, execution_id=env.wf_id, stage_id=env.ids["g"], signal_name=f"s{n}",
+                                     signal_data={"n": n}, persistent=True))
+            want = ["SG(g)", "SG(g)", "SS(g)"]
+            if env.tasks_of("g") or env.stage_row("g")["status"] != "NOT_STARTED":
+                raise RuntimeError(f"base state of {scn.key()}: stage g must be NOT_STARTED without task rows: {env.state_line()}")
         elif scn.kind == "startsignal":
-            env.create_workflow([mb.stage("g"), mb.stage("d", {"g"})])
+            env.create_workflow([mb.stage("g", tasks=bool(scn.nt)), mb.stage("d", {"g"})])
             env.start()
             env.drain(max_steps=20, hold=lambda c: c.startswith("SS(g)"))
 
@@ -294,6 +346,8 @@ class Lab:
             env.deliver(env.find("SG(g)")[0])
             env.push(sig(2))
             want = ["SG(g)", "SS(g)"]
+            if scn.nt == 0 and env.tasks_of("g"):
+                raise RuntimeError(f"base state of {scn.key()}: stage g must have no task rows: {env.state_line()}")
             if [x.get("signal_name") for x in env.ctx_of("g").get("_buffered_signals") or []] != ["s1"] or env.stage_row("g")["status"] != "NOT_STARTED":
                 raise RuntimeError(f"base state of {scn.key()} has no history: {env.state_line()}")
         else:
@@ -306,7 +360,7 @@ class Lab:
             env.push(CancelStage(execution_type=env.wf_type, execution_id=env.wf_id, stage_id=env.ids["i"]))
             want = ["CT(i)SUCC", "XS(i)"]
         got = sorted(c for _, c in env.pending())
-        if got != sorted(want):
+        if want is not None and got != sorted(want):
             raise RuntimeError(f"base state of {scn.key()} not reached: {env.state_line()}")
         r = scn.contended()
         row = env.stage_row(r)
@@ -315,6 +369,14 @@ class Lab:
         snap = mb.snapshot(env)
         self.env = env
         return env, snap, meta
+
+
+def _row(e, code: str) -> int:
+    """queue row id of a canonical code; `code@k` = the k-th pending row with that code (two messages of the same kind)"""
+    if "@" in code:
+        base, k = code.split("@")
+        return e.find(base)[int(k)]
+    return e.find(code)[0]
 
 
 def _fix(e, meta) -> None:
@@ -377,7 +439,8 @@ def impl_final(scn: Scn, env, meta: dict, outs: list[str], present: list[int], n
     r = scn.contended()
     row = env.stage_row(r)
     t0 = meta["tasks0"]
-    ts = ",".join(f"{k}.{v - t0[k][0]}.0" for k, (v, _) in enumerate(env.tasks_of(r))) or "-"
+    # task rows that existed at the base state (a task-less stage gets its rows at planning time: not part of the compared abstraction)
+    ts = ",".join(f"{k}.{v - t0[k][0]}.0" for k, (v, _) in enumerate(env.tasks_of(r)[:len(t0)])) or "-"
     return f"{','.join(outs) or '-'}#{row['version'] - meta['v0']}.{names.index(row['status'])}.{','.join(str(x) for x in sorted(present)) or '-'}#{ts}"
 
 
@@ -387,10 +450,14 @@ def _present(scn: Scn, ctx: dict, workers: list[str], successful: list[int]) -> 
     """which workers' modifications the contended row's context holds (worker number + 1)"""
     out = []
     for w, code in enumerate(workers):
-        if scn.kind in ("startjoin", "startsignal"):
+        if scn.kind == "twosignals":
+            want = "s1" if code.endswith("@0") else "s2"
+            here = want in [x.get("signal_name") for x in ctx.get("_buffered_signals") or []]
+            out += [w + 1] * (successful.count(w + 1) if here else 0)
+        elif scn.kind in ("startjoin", "startsignal", "cancelstart"):
             # StartStage writes the row twice (claim, plan): one payload entry per successful write of a worker whose contribution is there
-            if code.startswith("SS("):
-                here = True
+            if code.startswith("SS(") or code.startswith("XS("):
+                here = True         # their modifications are statuses (compared in the status field / checked by the monitors)
             elif code.startswith("CS("):
                 here = code[3:-1] in (ctx.get("_completed_branches") or [])
             else:
@@ -440,17 +507,17 @@ def state_monitors(scn: Scn, env, when: str) -> list[tuple[str, str]]:
             if env.stage_row(u)["status"] in COMPLETE and u not in done:
                 hits.append((f"{when}: CompleteStage({u}) committed {u}'s completion but the join's _completed_branches is {done}: its branch record was lost",
                              SIG[scn.kind]))
-    elif scn.kind == "startsignal":
+    elif scn.kind in ("startsignal", "twosignals"):
         got = [x.get("signal_name") for x in env.ctx_of("g").get("_buffered_signals") or []]
         if not {"s1", "s2"} <= set(got):
-            hits.append((f"{when}: both persistent signals were handled (s1 before the race, s2 in it; nothing suspends, so none is consumed) but stage g's "
+            hits.append((f"{when}: both persistent signals were handled (nothing suspends, so none is consumed) but stage g's "
                          f"mailbox _buffered_signals holds {got}", SIG[scn.kind]))
     elif scn.kind == "signal" and when != "after the first op":
         c = env.ctx_of("g")
         if not c.get("_buffered_signals") or "saved_by_task" not in c:
             hits.append((f"{when}: stage g's context has _buffered_signals={c.get('_buffered_signals')} and saved_by_task="
                          f"{c.get('saved_by_task', '<absent>')}: both the buffered persistent signal and the task's saved context must be there", SIG["signal"]))
-    elif scn.kind in ("cancel", "cancelrun"):
+    elif scn.kind in ("cancel", "cancelrun", "cancelstart"):
         au = env.audit()
         for kind, ent, old, new in au:
             if kind == "S" and ent == "i" and old == "CANCELED":
@@ -460,7 +527,7 @@ def state_monitors(scn: Scn, env, when: str) -> list[tuple[str, str]]:
         if when == "after the drain":
             row = env.stage_row("i")
             ts = [s for _, s in env.tasks_of("i")]
-            if scn.kind == "cancel" and row["status"] != "CANCELED":
+            if scn.kind in ("cancel", "cancelstart") and row["status"] != "CANCELED":
                 hits.append((f"{when}: CancelStage(i) was handled but stage i is {row['status']}", SIG[scn.kind]))
             if scn.kind == "cancelrun" and row["status"] not in COMPLETE:
                 hits.append((f"{when}: CancelStage(i) and the task result were handled but stage i is {row['status']}", SIG[scn.kind]))
@@ -518,8 +585,8 @@ def run_sched(lab: Lab, scn: Scn, snap, meta, d: dict, at: int, nest_at: int | N
         _fix(e, meta)
         arm_b = {}
         if nest_at is not None:
-            arm_b = {nest_at: e.deliver_op("C", e.find(d["c"])[0])}
-        return e.deliver_op("A", e.find(d["a"])[0], {at: e.deliver_op("B", e.find(d["b"])[0], arm_b)})
+            arm_b = {nest_at: e.deliver_op("C", _row(e, d["c"]))}
+        return e.deliver_op("A", _row(e, d["a"]), {at: e.deliver_op("B", _row(e, d["b"]), arm_b)})
 
     out = mb.run_schedule(env, snap, mk)
     sched = {"scn": asdict(scn), "dir": d, "at": at}
@@ -561,7 +628,7 @@ def run_sched(lab: Lab, scn: Scn, snap, meta, d: dict, at: int, nest_at: int | N
 def points_of(lab: Lab, scn: Scn, snap, meta, d: dict) -> tuple[list, list[int]]:
     def mk(e):
         _fix(e, meta)
-        return e.deliver_op("A", e.find(d["a"])[0])
+        return e.deliver_op("A", _row(e, d["a"]))
 
     calls = lab.mb.enumerate_points(lab.env, snap, mk)
     return calls, [c.idx for c in calls if c.legal] + [len(calls)]
